@@ -24,6 +24,11 @@
 (*  opts   set of names of the options that are on                         *)
 (*  traps  set of [c, a]  condition name, action (<<>> = ignore)           *)
 (*  mask   file mode creation mask, 0..511                                 *)
+(*  infn   the shell is executing the body of a function                   *)
+(*  loc    set of [n, k, v, x, r]: the local variables of that function    *)
+(*         (variables.md#local-variables); a local variable hides a global *)
+(*         one of the same name, also a read-only one (typeset.md,         *)
+(*         Compatibility)                                                  *)
 (***************************************************************************)
 EXTENDS Quote
 
@@ -68,6 +73,8 @@ Put(vs, e) == {o \in vs : o.n # e.n} \cup {e}
 NoVar(n) == [n |-> n, k |-> "U", v |-> <<>>, x |-> FALSE, r |-> FALSE]
 VarOr(vs, n) == IF Has(vs, n) THEN Get(vs, n) ELSE NoVar(n)
 ReadOnly(st, n) == Has(st.vars, n) /\ Get(st.vars, n).r
+(* the variables visible to the commands being executed *)
+Vis(st) == st.loc \cup {e \in st.vars : ~Has(st.loc, e.n)}
 
 (* A definition operation is a record                                      *)
 (*   [op, n, hv, v, m]                                                     *)
@@ -81,6 +88,42 @@ ReadOnly(st, n) == Has(st.vars, n) /\ Get(st.vars, n).r
 (*      "opt"      set -o n (hv) / set +o n (~hv)                          *)
 (*      "trap"     trap -- v[1] n (hv) / trap - n (~hv)                    *)
 (*      "umask"    umask m                                                 *)
+(*      "enter"    n() { ... }; n   the function n (body v[1]) is defined  *)
+(*                 and called; what follows happens inside its body        *)
+(*      "local"    typeset [-x] [-r] n[=v[1]] inside the function body     *)
+(*                 (m = 1 with -x, 2 with -r, 3 with both): "creates or    *)
+(*                 updates variables locally within the current function"  *)
+(* Conditions (trap.md): EXIT and every signal the system offers except     *)
+(* KILL and STOP, the real-time signals as RTMIN, RTMIN+n, RTMAX-n, RTMAX. *)
+(* One signal may have several names (XBD <signal.h>); a listing uses one  *)
+(* of them.  The catalogue is a parameter of the system: this is the one   *)
+(* of the simulated system (nine real-time signals).                       *)
+C_EXIT == <<69,88,73,84>>
+ClassicSignals == {<<72,85,80>>, <<73,78,84>>, <<81,85,73,84>>, <<65,66,82,84>>,
+                   <<65,76,82,77>>, <<84,69,82,77>>, <<66,85,83>>, <<67,72,76,68>>,
+                   <<67,79,78,84>>, <<69,77,84>>, <<70,80,69>>, <<73,76,76>>,
+                   <<73,78,70,79>>, <<73,79>>, <<76,79,83,84>>, <<80,73,80,69>>,
+                   <<80,79,76,76>>, <<80,82,79,70>>, <<80,87,82>>, <<83,69,71,86>>,
+                   <<83,84,75,70,76,84>>, <<83,89,83>>, <<84,72,82>>, <<84,82,65,80>>,
+                   <<84,83,84,80>>, <<84,84,73,78>>, <<84,84,79,85>>, <<85,82,71>>,
+                   <<85,83,82,49>>, <<85,83,82,50>>, <<86,84,65,76,82,77>>, <<87,73,78,67,72>>,
+                   <<88,67,80,85>>, <<88,70,83,90>>}
+RealTimeSignals == {<<82,84,77,73,78>>, <<82,84,77,73,78,43,49>>, <<82,84,77,73,78,43,50>>, <<82,84,77,73,78,43,51>>, <<82,84,77,73,78,43,52>>, <<82,84,77,65,88,45,51>>, <<82,84,77,65,88,45,50>>, <<82,84,77,65,88,45,49>>, <<82,84,77,65,88>>}
+Conditions == {C_EXIT} \cup ClassicSignals \cup RealTimeSignals
+CondAliases == {<<<<73,79,84>>, <<65,66,82,84>>>>,
+                <<<<67,76,68>>, <<67,72,76,68>>>>,
+                <<<<82,84,77,73,78,43,53>>, <<82,84,77,65,88,45,51>>>>,
+                <<<<82,84,77,73,78,43,54>>, <<82,84,77,65,88,45,50>>>>,
+                <<<<82,84,77,73,78,43,55>>, <<82,84,77,65,88,45,49>>>>,
+                <<<<82,84,77,73,78,43,56>>, <<82,84,77,65,88>>>>,
+                <<<<82,84,77,65,88,45,52>>, <<82,84,77,73,78,43,52>>>>,
+                <<<<82,84,77,65,88,45,53>>, <<82,84,77,73,78,43,51>>>>,
+                <<<<82,84,77,65,88,45,54>>, <<82,84,77,73,78,43,50>>>>,
+                <<<<82,84,77,65,88,45,55>>, <<82,84,77,73,78,43,49>>>>,
+                <<<<82,84,77,65,88,45,56>>, <<82,84,77,73,78>>>>}
+Canon(c) == IF \E p \in CondAliases : p[1] = c THEN (CHOOSE p \in CondAliases : p[1] = c)[2] ELSE c
+ConditionNames == Conditions \cup {p[1] : p \in CondAliases}
+
 Contains61(n) == \E k \in 1..Len(n) : n[k] = EQ
 (* XCU 2.15 trap: an action operand `-` resets the conditions; if the      *)
 (* first operand is an unsigned decimal integer all operands are           *)
@@ -105,6 +148,10 @@ PortableSpelling == {O_allexport, O_notify, O_errexit, O_monitor, O_verbose, O_x
                      O_ignoreeof, O_pipefail, O_vi, O_portable}
 OpEnabled(st, o) ==
   /\ O_portable \in st.opts => (o.op = "opt" /\ o.n \in PortableSpelling)
+  (* inside the function body only local definitions are made (what an     *)
+  (* assignment or `export` does to a hidden or a local variable is not    *)
+  (* needed to state what the printers list)                               *)
+  /\ st.infn <=> o.op = "local"
   /\ (CASE o.op \in {"assign", "array"} -> IsName(o.n) /\ ~ReadOnly(st, o.n)
         [] o.op \in {"export", "readonly", "typeset"} ->
              /\ ~Contains61(o.n)
@@ -113,8 +160,13 @@ OpEnabled(st, o) ==
         [] o.op = "alias" -> ~Contains61(o.n)
         [] o.op = "func" -> TRUE
         [] o.op = "opt" -> o.n \in Modifiable /\ ~(o.n = O_exec /\ ~o.hv)
-        [] o.op = "trap" -> ~(o.hv /\ AllDigits(o.v[1]))
-        [] o.op = "umask" -> o.m \in 0..511)
+        [] o.op = "trap" -> ~(o.hv /\ AllDigits(o.v[1])) /\ Canon(o.n) \in Conditions
+        [] o.op = "umask" -> o.m \in 0..511
+        [] o.op = "enter" -> TRUE
+        [] o.op = "local" ->
+             /\ ~Contains61(o.n) /\ o.m \in 0..3
+             /\ O_allexport \notin st.opts
+             /\ o.hv => ~(Has(st.loc, o.n) /\ Get(st.loc, o.n).r))
 
 Apply(st, o) ==
   CASE o.op = "assign" ->
@@ -134,9 +186,16 @@ Apply(st, o) ==
     [] o.op = "func" -> [st EXCEPT !.fn = Put(@, [n |-> o.n, b |-> o.v[1]])]
     [] o.op = "opt" -> [st EXCEPT !.opts = IF o.hv THEN @ \cup {o.n} ELSE @ \ {o.n}]
     [] o.op = "trap" ->
-         [st EXCEPT !.traps = IF IsReset(o) THEN {t \in @ : t.c # o.n}
-                              ELSE {t \in @ : t.c # o.n} \cup {[c |-> o.n, a |-> o.v[1]]}]
+         LET c == Canon(o.n) IN
+         [st EXCEPT !.traps = IF IsReset(o) THEN {t \in @ : t.c # c}
+                              ELSE {t \in @ : t.c # c} \cup {[c |-> c, a |-> o.v[1]]}]
     [] o.op = "umask" -> [st EXCEPT !.mask = o.m]
+    [] o.op = "enter" -> [st EXCEPT !.fn = Put(@, [n |-> o.n, b |-> o.v[1]]), !.infn = TRUE]
+    [] o.op = "local" ->
+         LET old == VarOr(st.loc, o.n)     \* a new local variable inherits nothing
+             val == IF o.hv THEN [old EXCEPT !.k = "S", !.v = <<o.v[1]>>] ELSE old
+         IN [st EXCEPT !.loc = Put(@, [val EXCEPT !.x = old.x \/ o.m \in {1, 3},
+                                                  !.r = old.r \/ o.m \in {2, 3}])]
 
 RECURSIVE ApplyAll(_, _)
 ApplyAll(st, h) == IF h = <<>> THEN st ELSE ApplyAll(Apply(st, Head(h)), Tail(h))
@@ -148,27 +207,41 @@ AllEnabled(st, h) == IF h = <<>> THEN TRUE
 ---------------------------------------------------------------------------
 (* What each printer lists.                                                *)
 (*  alias        every alias                        (alias.md)             *)
-(*  export -p    name and value of exported variables (export.md; "the     *)
-(*               commands do not include options to restore attributes")   *)
-(*  readonly -p  name and value of read-only variables (readonly.md)       *)
-(*  typeset -p   every variable with value and attributes (typeset.md)     *)
+(*  export -p    name and value of "all exported variables" (export.md;    *)
+(*               "the commands do not include options to restore           *)
+(*               attributes"), wherever the command is executed            *)
+(*  readonly -p  name and value of "all read-only variables" (readonly.md) *)
+(*  typeset -p   value and attributes of the "variables in the current     *)
+(*               context": inside a function its local variables;          *)
+(*  typeset -p -g  "variables visible in the current scope (which may be   *)
+(*               outside the current function)"; no difference outside a   *)
+(*               function (typeset.md)                                     *)
 (*  typeset -fp  every function                     (typeset.md)           *)
-(*  set          name and value of every variable that has a value and     *)
-(*               whose name is a name (set.md: "a sequence of simple       *)
-(*               commands performing an assignment")                       *)
+(*  set          name and value of every "variable visible in the current  *)
+(*               execution environment" that has a value and whose name is *)
+(*               a name (set.md: "a sequence of simple commands performing *)
+(*               an assignment")                                           *)
 (*  set +o       the state of every modifiable option (set.md)             *)
 (*  trap         every condition whose action is not the default (trap.md) *)
 (*  umask, umask -S   the mask (umask.md)                                  *)
-Kinds == {"alias", "export", "readonly", "typeset", "functions", "set", "options", "trap", "umask", "umaskS"}
+(* A hidden variable cannot be named by any command of the function, so    *)
+(* "all" variables are the visible ones.                                   *)
+Kinds == {"alias", "export", "readonly", "typeset", "typesetg", "functions", "set", "options", "trap",
+          "umask", "umaskS"}
 
 NKV(e) == [n |-> e.n, k |-> e.k, v |-> e.v]
+(* the variables a variable printer lists *)
+Listed(kind, st) ==
+  CASE kind = "export" -> {e \in Vis(st) : e.x}
+    [] kind = "readonly" -> {e \in Vis(st) : e.r}
+    [] kind = "typeset" -> IF st.infn THEN st.loc ELSE st.vars
+    [] kind = "typesetg" -> Vis(st)
+    [] kind = "set" -> {e \in Vis(st) : e.k # "U" /\ IsName(e.n)}
 Proj(kind, st) ==
   CASE kind = "alias" -> st.al
-    [] kind = "export" -> {NKV(e) : e \in {e \in st.vars : e.x}}
-    [] kind = "readonly" -> {NKV(e) : e \in {e \in st.vars : e.r}}
-    [] kind = "typeset" -> st.vars
+    [] kind \in {"export", "readonly", "set"} -> {NKV(e) : e \in Listed(kind, st)}
+    [] kind \in {"typeset", "typesetg"} -> Listed(kind, st)
     [] kind = "functions" -> st.fn
-    [] kind = "set" -> {NKV(e) : e \in {e \in st.vars : e.k # "U" /\ IsName(e.n)}}
     [] kind = "options" -> st.opts \cap Modifiable
     [] kind = "trap" -> st.traps
     [] kind \in {"umask", "umaskS"} -> {st.mask}
@@ -183,15 +256,15 @@ ValueOps(e, decl) ==
   ELSE <<Op(decl, e.n, FALSE, <<>>, 0)>>
 Listing(kind, st) ==
   CASE kind = "alias" -> {<<Op("alias", e.n, TRUE, <<e.v>>, 0)>> : e \in st.al}
-    [] kind = "export" -> {ValueOps(e, "export") : e \in {e \in st.vars : e.x}}
-    [] kind = "readonly" -> {ValueOps(e, "readonly") : e \in {e \in st.vars : e.r}}
-    [] kind = "typeset" ->
+    [] kind = "export" -> {ValueOps(e, "export") : e \in Listed(kind, st)}
+    [] kind = "readonly" -> {ValueOps(e, "readonly") : e \in Listed(kind, st)}
+    [] kind \in {"typeset", "typesetg"} ->
          {ValueOps(e, "typeset") \o (IF e.x THEN <<Op("export", e.n, FALSE, <<>>, 0)>> ELSE <<>>)
-                                 \o (IF e.r THEN <<Op("readonly", e.n, FALSE, <<>>, 0)>> ELSE <<>>) : e \in st.vars}
+                                 \o (IF e.r THEN <<Op("readonly", e.n, FALSE, <<>>, 0)>> ELSE <<>>) : e \in Listed(kind, st)}
     [] kind = "functions" -> {<<Op("func", e.n, TRUE, <<e.b>>, 0)>> : e \in st.fn}
     [] kind = "set" ->
          {<<Op(IF e.k = "A" THEN "array" ELSE "assign", e.n, TRUE, e.v, 0)>> :
-            e \in {e \in st.vars : e.k # "U" /\ IsName(e.n)}}
+            e \in Listed(kind, st)}
     [] kind = "options" -> {<<Op("opt", o, o \in st.opts, <<>>, 0)>> : o \in Modifiable \ {O_exec}}
     [] kind = "trap" -> {<<Op("trap", t.c, TRUE, <<t.a>>, 0)>> : t \in st.traps}
     [] kind \in {"umask", "umaskS"} -> {<<Op("umask", <<>>, TRUE, <<>>, st.mask)>>}
@@ -201,5 +274,6 @@ Eval(st, groups) ==
   IF groups = {} THEN st
   ELSE LET g == CHOOSE g \in groups : TRUE IN Eval(ApplyAll(st, g), groups \ {g})
 
-Empty == [vars |-> {}, al |-> {}, fn |-> {}, opts |-> {}, traps |-> {}, mask |-> 0]
+Empty == [vars |-> {}, al |-> {}, fn |-> {}, opts |-> {}, traps |-> {}, mask |-> 0,
+          infn |-> FALSE, loc |-> {}]
 =============================================================================
